@@ -9,6 +9,9 @@ let channels : (string * ((string * string) list -> string)) list = [
   ("dfs", Chan_dfs.run_dfs);
   ("dfsalgo", Chan_dfs.run_dfsalgo);
   ("hball", Chan_hball.run);
+  ("split", Chan_split.run_split);
+  ("ranges", Chan_split.run_ranges false);
+  ("chunks", Chan_split.run_ranges true);
 ]
 
 let () =
